@@ -19,7 +19,9 @@ def _mk(case):
     from synkit.CRN.DAG.syncrn import SynCRN
     kw = dict(rules=list(case["rules"]), repeats=case["repeats"], explicit_h=False, implicit_temp=True,
               max_components=case.get("max_components", 3), use_frontier=case.get("use_frontier", True),
-              dedup_across_rules=case.get("dedup_across_rules", False))
+              dedup_across_rules=case.get("dedup_across_rules", False), skip_no_change=case.get("skip_no_change", True),
+              allow_empty_side=case.get("allow_empty_side", False), dedup_delta=case.get("dedup_delta", True),
+              keep_aam=case.get("keep_aam", True))
     if case.get("max_mix") is not None:
         kw["max_mixtures_per_rule_step"] = case["max_mix"]
     if case.get("max_tasks") is not None:
@@ -49,6 +51,8 @@ def _record(case, G):
 
 
 def run(case):
+    """runs[k] = [label, [record after build call 1, record after build call 2, ...]] — successive build calls on ONE object"""
+    calls = case.get("builds") or [list(case["seeds"])]
     runs = []
     trace = None
     for w in [None] + list(case["workers"]):
@@ -62,7 +66,10 @@ def run(case):
                 _l.append([[(t[0], list(t[6]), t[2]) for t in tasks], [(r[0], list(r[1]), list(r[2])) for r in res]])
                 return res
             crn._run_tasks = rec
-            G = crn.build(list(case["seeds"]), parallel=False)
+            recs = []
+            for seeds in calls:
+                G = crn.build(list(seeds), parallel=False)
+                recs.append(_record(case, G))
             table = []
             keys = set(crn._species_index)
             for tasks, res in log:
@@ -82,18 +89,26 @@ def run(case):
                                 keys.add(k)
                         mixes.append(ks)
                     table.append([ti, tm, [m for m in mixes if m is not None], [ri, rm] == [ti, tm]])
-            seeds = []
-            for s in case["seeds"]:
-                std = crn._standardize_smiles(s)
-                k = crn._canonical_nomap(std) if std is not None else None
-                seeds.append(k)
-            trace = dict(keys=sorted(keys), table=table, seeds=seeds,
+            seedkeys = []
+            for seeds in calls:
+                row = []
+                for s in seeds:
+                    std = crn._standardize_smiles(s)
+                    k = crn._canonical_nomap(std) if std is not None else None
+                    if k is not None:
+                        keys.add(k)
+                    row.append(k)
+                seedkeys.append(row)
+            trace = dict(keys=sorted(keys), table=table, seeds=seedkeys,
                          arity=[crn._infer_rule_arity(r, i) for i, r in enumerate(crn.rules)],
                          steps=[len(t) for t, _ in log])
-            runs.append(["serial", _record(case, G)])
+            runs.append(["serial", recs])
         else:
-            G = crn.build(list(case["seeds"]), parallel=True, max_workers=w)
-            runs.append(["parallel max_workers=%d" % w, _record(case, G)])
+            recs = []
+            for seeds in calls:
+                G = crn.build(list(seeds), parallel=True, max_workers=w)
+                recs.append(_record(case, G))
+            runs.append(["parallel max_workers=%d" % w, recs])
     return dict(runs=runs, trace=trace)
 
 
